@@ -465,6 +465,33 @@ func c15Shapes() []string {
 			}
 		}
 	}
+	// compositions defined in place inside one another, at every position a schema can take
+	objA, objB := `{"type":"object","properties":{"a":{"type":"string"}}}`, `{"type":"object","properties":{"b":{"type":"integer"}}}`
+	oneOfAB := `{"oneOf":[` + objA + `,` + objB + `]}`
+	allOfAB := `{"allOf":[` + objA + `,` + objB + `]}`
+	for _, sch := range []string{
+		`{"allOf":[` + objA + `,` + oneOfAB + `]}`, `{"allOf":[{"$ref":"#/components/schemas/Base"},` + oneOfAB + `]}`, `{"allOf":[` + oneOfAB + `]}`,
+		`{"oneOf":[` + allOfAB + `,` + objB + `]}`, `{"oneOf":[` + oneOfAB + `,` + objA + `]}`, `{"allOf":[` + allOfAB + `,` + objA + `]}`,
+		`{"allOf":[{"type":"string"},` + objA + `]}`, `{"allOf":[{"type":"array","items":{"type":"string"}}]}`, `{"allOf":[]}`, `{"oneOf":[]}`, `{"oneOf":[{"type":"string"}]}`,
+		`{"allOf":[{"$ref":"#/components/schemas/Str"}]}`, `{"oneOf":[{"$ref":"#/components/schemas/Str"},{"$ref":"#/components/schemas/Base"}]}`,
+		`{"anyOf":[` + objA + `,` + objB + `]}`, `{"not":` + objA + `}`, `{"type":"object","additionalProperties":` + oneOfAB + `}`,
+		`{"type":"array","items":` + oneOfAB + `}`, `{"type":"array","items":` + allOfAB + `}`, `{"type":"object","properties":{"p":` + oneOfAB + `,"q":` + allOfAB + `}}`,
+		`{"oneOf":[` + objA + `,` + objB + `],"discriminator":{"propertyName":"a"}}`, `{"allOf":[` + objA + `],"discriminator":{"propertyName":"a"}}`,
+	} {
+		comps := `"components":{"schemas":{"Base":` + objB + `,"Str":{"type":"string"},"T":` + sch + `}}`
+		for _, pos := range []string{"component", "response", "requestbody", "param"} {
+			switch pos {
+			case "component":
+				out = append(out, head+fmt.Sprintf(`"paths":{"/a":{"get":{%s}}},%s}`, ok, comps))
+			case "response":
+				out = append(out, head+fmt.Sprintf(`"paths":{"/a":{"get":{"responses":{"200":{"description":"ok","content":{"application/json":{"schema":%s}}}}}}},%s}`, sch, comps))
+			case "requestbody":
+				out = append(out, head+fmt.Sprintf(`"paths":{"/a":{"post":{"requestBody":{"content":{"application/json":{"schema":%s}}},%s}}},%s}`, sch, ok, comps))
+			case "param":
+				out = append(out, head+fmt.Sprintf(`"paths":{"/a":{"get":{"parameters":[{"name":"q","in":"query","schema":%s}],%s}}},%s}`, sch, ok, comps))
+			}
+		}
+	}
 	// other goag extensions with odd values
 	for _, v := range []string{`""`, `"2006"`, `5`, `null`, `{}`, `"time.RFC3339"`} {
 		out = append(out, head+fmt.Sprintf(`"paths":{"/a":{"get":{"parameters":[{"name":"q","in":"query","schema":{"type":"string","format":"date-time","x-goag-go-time-format":%s}}],%s}}}}`, v, ok))
